@@ -4,6 +4,7 @@ import (
 	"fmt"
 	"net"
 	"net/netip"
+	"time"
 
 	"github.com/uhppoted/uhppote-core/types"
 
@@ -372,6 +373,35 @@ func c07(c *Ctx) {
 		}
 	}
 
+	// ... the same on a client on which the controller is configured - with a list of two, five, no door names: the rule is about the
+	// door number 1..4, not about what the configuration calls the doors
+	{
+		names := [][]string{nil, {}, {"Front"}, {"Front", "Back"}, {"A", "B", "C"}, {"A", "B", "C", "D"}, {"A", "B", "C", "D", "E"}, {"1", "2", "3", "4", "5", "6", "7"}}
+		devs := []DevCfg{}
+		for i, nn := range names {
+			devs = append(devs, DevCfg{ID: 0x0d000000 + uint32(i), Name: fmt.Sprintf("c%d", i), Addr: fmt.Sprintf("192.168.1.%d:60000", 100+i), Proto: []string{"udp", "tcp", ""}[i%3], NewDevice: i%2 == 0, Doors: nn, TZ: "Asia/Kolkata"})
+		}
+		uc, dc := mkMemClient(ClientCfg{Bind: "0.0.0.0:0", Broadcast: "192.168.1.255:60000", Devices: devs})
+		uSaved, dSaved := u, d
+		u, d = uc, dc
+		for _, dev := range devs {
+			for door := 0; door <= 9; door++ {
+				a, p := r.Args(setp)
+				a["Door"] = rm.UVal(rm.U8, uint64(door))
+				accept := door >= 1 && door <= 4
+				var want []byte
+				if accept {
+					want = setp.Request(dev.ID, a)
+				}
+				judge(setp, dev.ID, "door", accept, fmt.Sprintf("door=%d passcodes=%v (controller configured with %d door names)", door, p.Passcodes, len(dev.Doors)), want, func() error {
+					_, err := uc.SetDoorPasscodes(dev.ID, uint8(door), p.Passcodes...)
+					return err
+				})
+			}
+		}
+		u, d = uSaved, dSaved
+	}
+
 	// ---- (f) SetTimeProfile
 	stp := rm.FindOp("SetTimeProfile")
 	for i := 0; i < c.N(20000, 200000); i++ {
@@ -404,6 +434,16 @@ func c07(c *Ctx) {
 		}
 		serial := r.Serial()
 		profile := adapter.BuildProfile(a, aux)
+		// a missing date is missing in whatever location its zero time.Time happens to carry
+		if loc := []*time.Location{nil, time.FixedZone("W", -5*3600), time.FixedZone("E", 9*3600), time.Local}[r.Pick(4)]; loc != nil {
+			if desc == "zero from" {
+				profile.From = types.Date(time.Time{}.In(loc))
+				desc += " (zero time in " + loc.String() + ")"
+			} else if desc == "zero to" {
+				profile.To = types.Date(time.Time{}.In(loc))
+				desc += " (zero time in " + loc.String() + ")"
+			}
+		}
 		switch missing {
 		case 1, 2, 3:
 			delete(profile.Segments, uint8(missing))
